@@ -1246,6 +1246,44 @@ fn find_m(rng: &mut Rng, r: &Regs, pred: impl Fn(&Mat) -> bool) -> Option<usize>
 
 /// Draws the next op given the current model registers. `hostile` raises the share of deliberately
 /// incompatible operand pairs.
+/// index lists that look like something simpler than they are: the identity with a permuted or repeated interior,
+/// an ascending run with one foreign entry, the reversal, a rotation, the full range twice
+fn structured_indices(rng: &mut Rng, lim: usize) -> Vec<usize> {
+    let mut v: Vec<usize> = (0..lim).collect();
+    match rng.below(6) {
+        0 => {
+            // end points in place, interior permuted or repeated
+            if lim >= 4 {
+                let (i, j) = (rng.us(1, lim - 2), rng.us(1, lim - 2));
+                if rng.bool(0.5) {
+                    v.swap(i, j);
+                } else {
+                    v[i] = v[j];
+                }
+            }
+        }
+        1 => {
+            // a run with one foreign entry somewhere
+            let i = rng.below(lim);
+            v[i] = rng.below(lim);
+        }
+        2 => v.reverse(),
+        3 => v.rotate_left(rng.below(lim)),
+        4 => {
+            let w = v.clone();
+            v.extend(w);
+        }
+        _ => {
+            // a run that starts somewhere inside, continued after a gap
+            let s = rng.below(lim);
+            v = (s..lim).collect();
+            v.push(rng.below(lim));
+            v.extend(0..s);
+        }
+    }
+    v
+}
+
 pub fn draw_op(rng: &mut Rng, r: &Regs, f32w: bool) -> Op {
     let nm = r.m.len();
     let nv = r.v.len();
@@ -1311,7 +1349,7 @@ pub fn draw_op(rng: &mut Rng, r: &Regs, f32w: bool) -> Op {
             let axis = rng.below(2) as u8;
             let lim = if axis == 0 { ma.r } else { ma.c };
             let k = rng.us(1, lim + 2);
-            Op::Take(a, (0..k).map(|_| rng.below(lim)).collect(), axis)
+            Op::Take(a, if rng.bool(0.4) { structured_indices(rng, lim) } else { (0..k).map(|_| rng.below(lim)).collect() }, axis)
         }
         16 => Op::FromRowVector(u),
         17 => match rng.below(4) {
@@ -1427,7 +1465,7 @@ pub fn draw_op(rng: &mut Rng, r: &Regs, f32w: bool) -> Op {
         }
         61 => {
             let k = rng.us(1, r.v[u].len() + 2);
-            Op::VTake(u, (0..k).map(|_| rng.below(r.v[u].len())).collect())
+            Op::VTake(u, if rng.bool(0.4) { structured_indices(rng, r.v[u].len()) } else { (0..k).map(|_| rng.below(r.v[u].len())).collect() })
         }
         62 => match rng.below(3) {
             0 => Op::VApproxEq(u, same_len(rng), rng.logu(1e-9, 10.0)),
